@@ -206,7 +206,7 @@ class Intersection:
             diff = curvesa[0].eval(pair[0])
             dati = curvesa[1].eval(pair[0])
             ddati = curvesa[2].eval(pair[0])
-            diff -= curvesb[0].eval(pair[1])
+            diff = diff - curvesb[0].eval(pair[1])
             dbuj = curvesb[1].eval(pair[1])
             ddbuj = curvesb[2].eval(pair[1])
             grad = np.array([np.inner(dati, diff), -np.inner(dbuj, diff)])
